@@ -22,19 +22,26 @@ LEVEL_TEXT = ("machine-checked Lean 4 theorems (induction over unbounded histori
               "tied to pyrex/io.py on every run by an exact differential run on real HDF5 files (acceptance of every "
               "call, table lengths, counters, /event_indices cell by cell, column order, total_thrown, every event "
               "through len / iteration / indexing with decoded row contents)")
-LEVEL_NOTE = ("all C11 theorems are fully proved (no _partial): C11_index_in_bounds, C11_index_monotone, C11_accepted_count, "
-              "C11_round_trip, C11_reject_isolated, C11_reject_last, C11_empty_file_iterates_empty, C11_orphans_unreachable, "
-              "C11_keys_stable, C11_all_gated_untriggered_witness.  Assumed / outside the theorems: row CONTENTS (a row is a "
-              "(call, position) tag in the model; values, column names of trigger/metadata tables and the accessor "
-              "functions are checked by the correspondence run and the search only); a failing add is a cut after any "
-              "bookkeeping micro-operation (preset, counter increment, create+resize, index write, total_thrown) - a superset "
-              "of the raise points of the code, except that a cut between a counter increment and the resize is modelled "
-              "only where the code can raise there (_write_trigger when triggers are not trigger-gated; rule `stageOf`); "
-              "option sets must record particles unconditionally (write_particles and 'particles' not trigger-gated): "
-              "otherwise EventIterator cannot open the file (witness theorem), such files are still compared with the "
-              "model exactly; h5py datasets behave as resizable arrays with fill values")
+LEVEL_NOTE = ("all C11 theorems are fully proved (no _partial): C11_index_in_bounds and C11_index_monotone (for EVERY option "
+              "set), C11_counters_any_options (counters / index length / event counter for every option set), "
+              "C11_accepted_count, C11_round_trip, C11_reject_isolated, C11_reject_last, C11_empty_file_iterates_empty, "
+              "C11_orphans_unreachable (these under option sets that record particles), C11_keys_stable, "
+              "C11_all_gated_untriggered_witness; C11_steps_match_source, C11_writer_ops_match_source, "
+              "C11_add_shape_matches_source, C11_records_is_gate tie the model's step order, gating keys, micro-operation "
+              "order, preset order and the try/shrink/increment shape of add() to tables regenerated from pyrex/io.py by "
+              "harness/extract/h5_steps.py on every run; C11_component_flags_round_trip (+ _old_code_witness) covers the "
+              "column-name bookkeeping of the component-trigger table.  Assumed / outside the theorems: row CONTENTS other "
+              "than the component-trigger flags (a row is a (call, position) tag; values and the accessor functions are "
+              "checked by the correspondence run and the search only); a failing add is a cut after any bookkeeping "
+              "micro-operation - a superset of the raise points of the code, except that a cut between a counter increment "
+              "and the resize is modelled only where the source has a raising call there (_write_trigger; rule `stageOf`, "
+              "checked against the source by C11_writer_ops_match_source); the round trip needs option sets that record "
+              "particles unconditionally: otherwise EventIterator cannot open the file (witness theorem) - such files are "
+              "still compared with the model exactly (acceptance of every call, counters, raw index); column names of one "
+              "_write_trigger call are assumed distinct (no dict key named antenna_<i>); h5py datasets behave as resizable "
+              "arrays with fill values")
 TECHNIQUE = "Lean 4 model of the writer/reader bookkeeping + exact differential run on real HDF5 files"
-EXTRACTORS = []
+EXTRACTORS = ["h5_steps"]
 ASSUMPTIONS = [
     "row *content* is not modelled: rows are identified by (add call, position); the harness encodes that "
     "identity in the values it writes and decodes it when reading (h5lib.build_call / canon_event)",
@@ -119,6 +126,49 @@ def _corr_job(specs, col, d):
     batch.flush()
 
 
+def _mc_job(specs, col, d):
+    """component-trigger table of fault-free files: keys in creation order and the whole flag matrix
+    vs the model of the column bookkeeping (lean/PyrexVerif/D/H5Mc.lean)"""
+    reqs, real = [], []
+    for i, spec in enumerate(specs):
+        b = H.write_file(spec, os.path.join(d, "m%d.h5" % i))
+        if any(x is not None for x in b.excs):
+            col.broken.append("correspondence: fault-free add raised %r for `%s`" % (b.excs, H.describe(spec)))
+        reqs.append(H.mc_request(b))
+        real.append(H.mc_raw(b.fn))
+        keys = real[-1].split(" | ")[0][5:].split(",")
+        if H.displaced([k for k in keys if k]):
+            col.count("mc_files_named_key_before_antenna_columns")
+        col.count("mc_files")
+        os.remove(b.fn)
+    for rq, rl, rp, spec in zip(reqs, real, fw.run_driver("C11", reqs), specs):
+        col.case(("mc", rq), nontrivial=rq.count("antenna_") > 0 or " extra " in rq, sample={"request": rq[:300], "model": rp[:200]})
+        if rp.strip() == rl.strip():
+            col.traces += 1
+        else:
+            col.broken.append("correspondence: request `%s` model `%s` implementation `%s` (file %s)"
+                              % (rq[:500], rp[:300], rl[:300], H.describe(spec)[:300]))
+
+
+def _mc_specs(run, n):
+    specs = []
+    for _ in range(n):
+        w = "11" + run.rng.choice("01") * 1 + "".join(run.rng.choice("01") for _ in range(3))
+        spec = H.gen_spec(run.rng, always=True, w=w, nfaults=0, max_adds=8)
+        r = run.rng.random()
+        if w[2] == "1" and r < 0.6:      # antenna triggers gated: named keys may come first
+            bits = ["0"] * 6
+            bits[2] = "1"
+            for j in (3, 4, 5):
+                bits[j] = run.rng.choice("01")
+            spec["rt"], spec["rt_str"] = "L" + "".join(bits), False
+        for o in spec["ops"]:
+            if o["op"] == "A" and run.rng.random() < 0.6:
+                o["form"] = run.rng.choice(["dict", "dictlist"])
+        specs.append(spec)
+    return specs
+
+
 def correspondence(run):
     nfiles = run.scale(150, 3000)
     allw = H.all_wbits()
@@ -137,6 +187,7 @@ def correspondence(run):
             w, always = run.rng.choice(wsets[:10]) if run.rng.random() < 0.85 else run.rng.choice(wsets[10:])
         specs.append(H.gen_spec(run.rng, always=always, w=w, zero_particles=0.04))
     H.run_jobs(run, _corr_job, H.chunks(specs, 15))
+    H.run_jobs(run, _mc_job, H.chunks(_mc_specs(run, run.scale(60, 1200)), 15))
     return not run.broken
 
 
